@@ -1,5 +1,300 @@
 /-
-  Props/C16.lean — property theorems for C16 (stub; to be filled in).
+  Props/C16.lean — generated `.pyi` stubs agree with the runtime constructor signatures.
+
+  Model: Sem/Stub.lean (stub generator's field → parameter derivation; `StructMeta.__new__` /
+  `make_signature` / `get_base_info` / `__setattr__` guard on the runtime side), over ALL class
+  hierarchies `ClassInfo` (any number of bases, any depth — induction over the tree of bases in
+  `Lemmas/Stub.lean: names_inv`), all field lists, all `_required` / `_optional` / defaults / constants /
+  `_additional_properties` declarations, and both values of the additional-properties default.
+
+  The pinned code violates the property in two regions (both reproduced on the real code by the
+  `stub` suite and listed as known findings):
+    * "required-optional-default": a *required* field of shape `AnyOf[X, None]` is rendered
+      `Optional[X] = None`, i.e. with a default although the constructor requires it
+      (`requiredOptional`);
+    * "inherited-additional-properties": with `additional_properties_default = False`, a class that
+      inherits `_additional_properties = True` without re-declaring it gets `**kw` in the stub while its
+      `__signature__` (built from the class's *own* dict) has no `**kwargs` (`inheritedAddlOn`).
+  Full statement: `C16_statement`; proved: the statement outside exactly these regions
+  (`stub_params_agree_partial`), the exact characterisations (`stub_required_iff`, `stub_kw_iff`), that
+  inside each region the statement fails (`*_disagree`, so the exclusions are tight) and kernel-checked
+  concrete counterexamples.
 -/
+import TypedpyModel.Lemmas.Stub
+import TypedpyModel.Lemmas.StubSort
 namespace Typedpy.C16
+open Typedpy.Stub
+
+/-! ### the statement -/
+
+/-- keyword names of a stub parameter list = names the runtime signature accepts (constants are in neither) -/
+def NamesAgree (dflt : Bool) (c : ClassInfo) (ps : List Param) : Prop :=
+  ∀ n, n ∈ ps.map (·.name) ↔ n ∈ (runtimeSig dflt c).params.map (·.name)
+
+/-- a stub parameter has no default exactly for the runtime-required fields -/
+def RequiredAgree (dflt : Bool) (c : ClassInfo) (ps : List Param) : Prop :=
+  ∀ n, (⟨n, false⟩ : Param) ∈ ps ↔ runtimeRequired dflt c n = true
+
+/-- `**kw` exactly when the class admits additional properties -/
+def KwAgree (dflt : Bool) (c : ClassInfo) (kw : Bool) : Prop := kw = runtimeAdmitsExtra dflt c
+
+/-- the generated `__init__` (stub generated with `additional_properties_default` = the runtime default) -/
+def InitAgrees (dflt : Bool) (c : ClassInfo) : Prop :=
+  NamesAgree dflt c (stubInit dflt dflt c).params ∧ RequiredAgree dflt c (stubInit dflt dflt c).params ∧
+    KwAgree dflt c (stubInit dflt dflt c).kw
+
+/-- `shallow_clone_with_overrides` / `from_other_class` / `from_trusted_data`: the fixed leading
+    parameters, then the same field keywords, every one optional, `**kw` as for `__init__` -/
+def HelperAgrees (dflt : Bool) (c : ClassInfo) (h : Helper) : Prop :=
+  (∃ fields, (stubHelper dflt dflt h c).params = helperPrefix h ++ fields ∧
+    NamesAgree dflt c fields ∧ (∀ p ∈ fields, p.hasDefault = true) ∧
+    fields.map (·.name) = (stubInit dflt dflt c).params.map (·.name)) ∧
+  KwAgree dflt c (stubHelper dflt dflt h c).kw
+
+/-- C16 (model part), full strength -/
+def C16_statement : Prop := ∀ (dflt : Bool) (c : ClassInfo), InitAgrees dflt c ∧ ∀ h, HelperAgrees dflt c h
+
+/-! ### the two known-finding regions (decidable) -/
+
+/-- some non-constant field that is in `cls._required` has the `AnyOf[X, None]` shape -/
+def requiredOptional (dflt : Bool) (c : ClassInfo) : Bool :=
+  (allFields c).any (fun f => !f.isConst && f.optShape && (clsRequired dflt c).contains f.name)
+
+/-- default off, nothing declared by the class itself, `True` found further up the MRO -/
+def inheritedAddlOn (dflt : Bool) (c : ClassInfo) : Bool :=
+  !dflt && c.decl.addl.isNone && (addlLookup (mro c) == some true)
+
+/-! ### names -/
+
+/-- keyword names of the generated `__init__` are exactly the names the runtime signature accepts —
+    for every hierarchy, unconditionally -/
+theorem stub_names_agree (dflt apd : Bool) (c : ClassInfo) : NamesAgree dflt c (stubInit dflt apd c).params := by
+  intro n
+  show n ∈ (stubArgs dflt c).map (·.name) ↔ _
+  rw [names_stubArgs, names_inv]
+
+/-- no constant is a keyword of the stub `__init__`, and every non-constant field is -/
+theorem stub_names_are_nonconstant_fields (dflt apd : Bool) (c : ClassInfo) (n : String) :
+    n ∈ (stubInit dflt apd c).params.map (·.name) ↔ ∃ f, finalField c n = some f ∧ f.isConst = false :=
+  names_stubArgs dflt c n
+
+/-! ### default ⇔ not required -/
+
+theorem annEndsNone_false (req : List String) (f : FieldInfo) :
+    annEndsNone req f = false ↔ f.name ∈ req ∧ f.optShape = false := by
+  unfold annEndsNone
+  by_cases hr : f.name ∈ req <;> cases ho : f.optShape <;> simp [hr]
+
+/-- exact characterisation: the stub parameter has no default iff the field is runtime-required AND is
+    not of the `AnyOf[X, None]` shape -/
+theorem stub_required_iff (dflt apd : Bool) (c : ClassInfo) (n : String) :
+    (⟨n, false⟩ : Param) ∈ (stubInit dflt apd c).params ↔
+      (runtimeRequired dflt c n = true ∧ ∃ f, finalField c n = some f ∧ f.optShape = false) := by
+  show (⟨n, false⟩ : Param) ∈ stubArgs dflt c ↔ _
+  rw [mem_stubArgs, runtimeRequired_iff]
+  constructor
+  · rintro ⟨f, h1, h2, h3⟩
+    have hn : f.name = n := (lookupF_some h1).2
+    obtain ⟨hr, ho⟩ := (annEndsNone_false _ f).mp h3.symm
+    exact ⟨⟨⟨f, h1, h2⟩, hn ▸ hr⟩, f, h1, ho⟩
+  · rintro ⟨⟨⟨f, h1, h2⟩, hr⟩, g, hg, ho⟩
+    have hfg : f = g := by
+      have : finalField c n = some f := h1
+      rw [hg] at this; cases this; rfl
+    subst hfg
+    have hn : f.name = n := (lookupF_some h1).2
+    exact ⟨f, h1, h2, ((annEndsNone_false _ f).mpr ⟨hn ▸ hr, ho⟩).symm⟩
+
+theorem requiredOptional_iff (dflt : Bool) (c : ClassInfo) :
+    requiredOptional dflt c = true ↔
+      ∃ n f, finalField c n = some f ∧ f.isConst = false ∧ f.optShape = true ∧ n ∈ clsRequired dflt c := by
+  unfold requiredOptional
+  simp only [List.any_eq_true, Bool.and_eq_true, Bool.not_eq_true', List.contains_iff_mem]
+  constructor
+  · rintro ⟨f, hf, ⟨hc, ho⟩, hr⟩
+    exact ⟨f.name, f, lookupF_of_mem (nodupN_allFields c) hf, hc, ho, hr⟩
+  · rintro ⟨n, f, hl, hc, ho, hr⟩
+    have := lookupF_some hl
+    exact ⟨f, this.1, ⟨hc, ho⟩, this.2 ▸ hr⟩
+
+/-- outside the region of finding "required-optional-default": no default ⇔ runtime-required -/
+theorem stub_required_agree_partial (dflt apd : Bool) (c : ClassInfo) (hx : requiredOptional dflt c = false) :
+    RequiredAgree dflt c (stubInit dflt apd c).params := by
+  intro n
+  rw [stub_required_iff]
+  constructor
+  · exact fun h => h.1
+  · intro h
+    refine ⟨h, ?_⟩
+    obtain ⟨⟨f, h1, h2⟩, hr⟩ := (runtimeRequired_iff dflt c n).mp h
+    refine ⟨f, h1, ?_⟩
+    cases ho : f.optShape
+    · rfl
+    · have : requiredOptional dflt c = true := (requiredOptional_iff dflt c).mpr ⟨n, f, h1, h2, ho, hr⟩
+      rw [hx] at this; cases this
+
+/-- inside the region the claim is false: the exclusion is exactly the failure region -/
+theorem stub_required_disagree (dflt apd : Bool) (c : ClassInfo) (hx : requiredOptional dflt c = true) :
+    ¬ RequiredAgree dflt c (stubInit dflt apd c).params := by
+  intro hagree
+  obtain ⟨n, f, h1, h2, ho, hr⟩ := (requiredOptional_iff dflt c).mp hx
+  have hreq : runtimeRequired dflt c n = true := (runtimeRequired_iff dflt c n).mpr ⟨⟨f, h1, h2⟩, hr⟩
+  obtain ⟨_, g, hg, hgo⟩ := (stub_required_iff dflt apd c n).mp ((hagree n).mpr hreq)
+  have : finalField c n = some f := h1
+  rw [hg] at this; cases this
+  rw [ho] at hgo; cases hgo
+
+/-! ### `**kw` -/
+
+/-- exact characterisation of the stub's `**kw` -/
+theorem stub_kw_iff (dflt : Bool) (c : ClassInfo) :
+    (stubInit dflt dflt c).kw = (runtimeAdmitsExtra dflt c || inheritedAddlOn dflt c) := by
+  cases c with
+  | mk d bases =>
+    simp only [stubInit, stubKw, runtimeAdmitsExtra, setattrAllows, inheritedAddlOn, runtimeSig, sigOf,
+      makeSignature, mro, addlLookup, ClassInfo.decl]
+    cases hd : d.addl with
+    | some b => cases b <;> simp
+    | none =>
+      cases dflt <;> cases hl : addlLookup (mroL bases) with
+      | none => simp
+      | some b => cases b <;> simp
+
+theorem stub_kw_agree_partial (dflt : Bool) (c : ClassInfo) (hx : inheritedAddlOn dflt c = false) :
+    KwAgree dflt c (stubInit dflt dflt c).kw := by
+  unfold KwAgree
+  rw [stub_kw_iff, hx, Bool.or_false]
+
+theorem stub_kw_disagree (dflt : Bool) (c : ClassInfo) (hx : inheritedAddlOn dflt c = true) :
+    ¬ KwAgree dflt c (stubInit dflt dflt c).kw := by
+  unfold KwAgree
+  rw [stub_kw_iff, hx, Bool.or_true]
+  cases c with
+  | mk d bases =>
+    simp only [inheritedAddlOn, ClassInfo.decl, Bool.and_eq_true, Bool.not_eq_true', Option.isNone_iff_eq_none] at hx
+    simp [runtimeAdmitsExtra, runtimeSig, sigOf, makeSignature, hx.1.1, hx.1.2]
+
+/-! ### helper methods -/
+
+theorem helper_fields_agree (dflt apd : Bool) (c : ClassInfo) (h : Helper) :
+    ∃ fields, (stubHelper dflt apd h c).params = helperPrefix h ++ fields ∧
+      NamesAgree dflt c fields ∧ (∀ p ∈ fields, p.hasDefault = true) ∧
+      fields.map (·.name) = (stubInit dflt apd c).params.map (·.name) := by
+  refine ⟨stubHelperFields dflt c, rfl, ?_, ?_, ?_⟩
+  · intro n
+    have hm : (stubHelperFields dflt c).map (·.name) = (stubArgs dflt c).map (·.name) := by
+      simp [stubHelperFields, List.map_map, Function.comp_def]
+    rw [hm]
+    exact stub_names_agree dflt apd c n
+  · intro p hp
+    simp only [stubHelperFields, List.mem_map] at hp
+    obtain ⟨q, _, rfl⟩ := hp
+    cases hq : q.hasDefault <;> simp
+  · simp [stubHelperFields, stubInit, List.map_map, Function.comp_def]
+
+/-! ### the property outside the known-finding regions -/
+
+theorem stub_params_agree_partial (dflt : Bool) (c : ClassInfo)
+    (h1 : requiredOptional dflt c = false) (h2 : inheritedAddlOn dflt c = false) :
+    InitAgrees dflt c ∧ ∀ h, HelperAgrees dflt c h :=
+  ⟨⟨stub_names_agree dflt dflt c, stub_required_agree_partial dflt dflt c h1, stub_kw_agree_partial dflt c h2⟩,
+   fun h => ⟨helper_fields_agree dflt dflt c h, stub_kw_agree_partial dflt c h2⟩⟩
+
+/-- with the shipped default (`additional_properties_default = True`) only the first region exists -/
+theorem stub_params_agree_default_on (c : ClassInfo) (h1 : requiredOptional true c = false) :
+    InitAgrees true c ∧ ∀ h, HelperAgrees true c h :=
+  stub_params_agree_partial true c h1 (by simp [inheritedAddlOn])
+
+/-! ### ordering -/
+
+theorem mandatoryFirst_append (xs ys : List Param) (hx : ∀ p ∈ xs, p.hasDefault = false)
+    (hy : ∀ p ∈ ys, p.hasDefault = true) : mandatoryFirst (xs ++ ys) = true := by
+  induction xs with
+  | nil =>
+    cases ys with
+    | nil => rfl
+    | cons y ys =>
+      simp only [List.nil_append, mandatoryFirst, hy y List.mem_cons_self, if_true, List.all_eq_true]
+      exact fun q hq => hy q (List.mem_cons_of_mem _ hq)
+  | cons x xs ih =>
+    simp only [List.cons_append, mandatoryFirst, hx x List.mem_cons_self, Bool.false_eq_true, if_false]
+    exact ih (fun p hp => hx p (List.mem_cons_of_mem _ hp))
+
+/-- `_get_ordered_args` yields a legal Python parameter order (no mandatory parameter after an optional one) -/
+theorem stub_mandatory_first (dflt apd : Bool) (c : ClassInfo) :
+    mandatoryFirst (stubInit dflt apd c).params = true := by
+  show mandatoryFirst (orderedArgs _) = true
+  unfold orderedArgs
+  apply mandatoryFirst_append
+  · intro p hp; simpa using (List.mem_filter.mp hp).2
+  · intro p hp; simpa using (List.mem_filter.mp hp).2
+
+/-! ### hash-seed independence of the import section -/
+
+/-- the rendered import section is invariant under permutation of the iterated set -/
+theorem stub_perm_invariant (xs ys : List (String × String)) (h : xs.Perm ys) :
+    renderImports xs = renderImports ys :=
+  sortU_perm _ _ (h.map importLine)
+
+/-- stronger: it depends only on the set of (name, module) items (any order, any multiplicity) -/
+theorem stub_set_invariant (xs ys : List (String × String)) (h : ∀ kv, kv ∈ xs ↔ kv ∈ ys) :
+    renderImports xs = renderImports ys := by
+  apply sortU_ext
+  intro s
+  simp only [List.mem_map]
+  constructor
+  · rintro ⟨kv, hkv, rfl⟩; exact ⟨kv, (h kv).mp hkv, rfl⟩
+  · rintro ⟨kv, hkv, rfl⟩; exact ⟨kv, (h kv).mpr hkv, rfl⟩
+
+theorem stub_imports_sorted (xs : List (String × String)) : (renderImports xs).Pairwise (· < ·) :=
+  sortU_sorted _
+
+/-! ### kernel-checked counterexamples (the inputs replayed on the real code by the `stub` suite) -/
+
+/-- `class K(Structure): e: AnyOf[Integer, None]; s: String` — `e` is required -/
+def ceRequiredOptional : ClassInfo :=
+  .mk { name := "K", fields := [{ name := "e", optShape := true }, { name := "s" }] } []
+
+theorem required_optional_counterexample :
+    runtimeRequired true ceRequiredOptional "e" = true ∧
+    (stubInit true true ceRequiredOptional).params = [⟨"s", false⟩, ⟨"e", true⟩] ∧
+    ¬ RequiredAgree true ceRequiredOptional (stubInit true true ceRequiredOptional).params := by
+  refine ⟨by decide, by decide, stub_required_disagree true true _ (by decide)⟩
+
+/-- `class P(Structure): a: String; _additional_properties = True` / `class Q(P): b: String`,
+    `additional_properties_default = False` -/
+def ceInheritedAddl : ClassInfo :=
+  .mk { name := "Q", fields := [{ name := "b" }] }
+    [.mk { name := "P", fields := [{ name := "a" }], addl := some true } []]
+
+theorem inherited_addl_counterexample :
+    (stubInit false false ceInheritedAddl).kw = true ∧ runtimeAdmitsExtra false ceInheritedAddl = false ∧
+    ¬ KwAgree false ceInheritedAddl (stubInit false false ceInheritedAddl).kw := by
+  refine ⟨by decide, by decide, stub_kw_disagree false _ (by decide)⟩
+
+/-- the full-strength statement is false of the model (as it is of the pinned code) -/
+theorem C16_statement_false : ¬ C16_statement := fun h =>
+  required_optional_counterexample.2.2 (h true ceRequiredOptional).1.2.1
+
+/-! ### non-vacuity -/
+
+/-- a three-level hierarchy with a constant, a default, an optional-shaped optional field, a base that
+    switches additional properties off and a subclass that re-declares a base field as constant -/
+def exHierarchy : ClassInfo :=
+  .mk { name := "C", fields := [{ name := "z" }, { name := "k2", isConst := true }, { name := "b", isConst := true }],
+        optionalDecl := ["z"] }
+    [.mk { name := "B", fields := [{ name := "c", hasDefault := true }, { name := "b" }] }
+      [.mk { name := "A", fields := [{ name := "k", isConst := true }, { name := "a" }, { name := "o", optShape := true }],
+             requiredDecl := some ["a"], addl := some false } []],
+     .mk { name := "M", fields := [{ name := "m" }, { name := "a", hasDefault := true }] } []]
+
+theorem stub_params_agree_example :
+    (stubInit true true exHierarchy).params = [⟨"m", false⟩, ⟨"a", false⟩, ⟨"o", true⟩, ⟨"c", true⟩, ⟨"z", true⟩] ∧
+    (stubInit true true exHierarchy).kw = false ∧ (runtimeSig true exHierarchy).kw = true ∧
+    runtimeAdmitsExtra true exHierarchy = false ∧
+    (runtimeSig true exHierarchy).params = [⟨"a", false⟩, ⟨"m", false⟩, ⟨"o", true⟩, ⟨"c", true⟩, ⟨"z", true⟩] ∧
+    requiredOptional true exHierarchy = false ∧ inheritedAddlOn true exHierarchy = false ∧
+    renderImports [("B", "pkg.b"), ("A", "pkg.a"), ("B", "pkg.b")] = ["from pkg.a import A", "from pkg.b import B"] := by
+  decide
+
 end Typedpy.C16
